@@ -1,4 +1,4 @@
-import BctVerif.Lemmas.ModularityDir
+import BctVerif.Lemmas.ModularityLouvainDir
 
 /-!
 # C07 — modularity optimisers never return a partition worse than their start
@@ -192,6 +192,16 @@ exists for `louvainDir`.  **Partial**: full statement that fails —
   `∀ W γ ds out, 0 < total W → louvainDir W γ ds g0 = .ok out →
      (∀ p ∈ out.levels.drop 1, p.2 = Qdir W γ (labOf p.1) ∧ Qdir W γ id ≤ Qdir W γ (labOf p.1)) ∧ levels increasing`.
 Its negation is proved on concrete witnesses (inputs and draws recorded from real bct runs). -/
+
+/-- **modularity_louvain_dir, first level on symmetric input** — what is true of the as-written routine: on symmetric `W` the
+first level's gains are exact (`knm_i = W.copy() = W.T`), so the first level is at least as good as the all-singletons start.
+Together with `Bct.C02.louvain_dir_single_level`: the defect D6 cannot manifest on symmetric input in runs that keep at most one
+level; it can on asymmetric input (wrong gains, `louvain_dir_defect_witness`) and from the second kept level on
+(`louvain_dir_inconsistent_witness`). -/
+theorem louvain_dir_level1_monotone_symm (W : RMat n) (γ : ℚ) (ds : List ℕ) (out : Out n)
+    (hW : Symm W) (hs : 0 < total W) (h : louvainDir W γ ds g0 = .ok out) :
+    ∀ p, out.levels[0]? = some p → Qdir W γ (id : Fin n → Fin n) ≤ Qdir W γ (labOf p.1) :=
+  louvainDir_level1_monotone_symm W γ ds out hW hs h
 
 /-- some returned level is strictly worse than the start -/
 def worseThan {n : ℕ} (W : RMat n) (γ Q0 : ℚ) : Except Err (Out n) → Bool
